@@ -110,7 +110,7 @@ QuadSideOk(obs, k0, k1, k2, isMin) ==
        ELSE Abs(obs - 1024 * (IF isMin THEN Min2(k0, k2) ELSE Max2(k0, k2))) <= 8
 ElevOk(e) == \A a \in 1 .. Len(e.obs.min) : /\ QuadSideOk(e.obs.min[a], e.k[1][a], e.k[2][a], e.k[3][a], TRUE)
                                            /\ QuadSideOk(e.obs.max[a], e.k[1][a], e.k[2][a], e.k[3][a], FALSE)
-AxiomOps == {"bez_tangent", "bez_circle", "bez_extrema", "bez_bounds", "bez_search", "bez_length", "bez_elev_f"}
+AxiomOps == {"bez_tangent", "bez_circle", "bez_extrema", "bez_bounds", "bez_search", "bez_length", "bez_elev_f", "bez_piece_box_f"}
 Conforms(e) == e.pan = 0 /\ CASE e.op = "bez_circle" -> CircleOk(e)
                               [] e.op = "bez_tangent" -> TangentOk(e)
                               [] e.op = "bez_extrema" -> ExtremaOk(e)
@@ -118,6 +118,9 @@ Conforms(e) == e.pan = 0 /\ CASE e.op = "bez_circle" -> CircleOk(e)
                               [] e.op = "bez_search" -> SearchOk(e)
                               [] e.op = "bez_length" -> LengthOk(e)
                               [] e.op = "bez_elev_f" -> ElevOk(e)
+                              \* floats (plain integer: largest excess of a sampled point over the box, * 2^30): a piece split off at one of the
+                              \* curve's own extrema lies inside its bounding box (the derivative vanishes up to rounding at the cut)
+                              [] e.op = "bez_piece_box_f" -> e.obs \in 0 .. 16
                               [] OTHER -> e.obs = Expected(e)
 
 Init == l = 1
@@ -138,9 +141,10 @@ BezBounds == Step("bez_bounds")
 BezSearch == Step("bez_search")
 BezLength == Step("bez_length")
 BezElevF == Step("bez_elev_f")
+BezPieceBoxF == Step("bez_piece_box_f")
 BezTangent == Step("bez_tangent")
 Next == BezEval \/ BezDeriv \/ BezSplit \/ BezConv \/ BezMatrixA \/ BezMulA \/ BezCircle
-        \/ BezExtrema \/ BezBounds \/ BezSearch \/ BezLength \/ BezTangent \/ BezElevF
+        \/ BezExtrema \/ BezBounds \/ BezSearch \/ BezLength \/ BezTangent \/ BezElevF \/ BezPieceBoxF
 Accepted == IF TLCGet("stats").diameter - 1 = Len(Rec) THEN TRUE
             ELSE PrintT(ToJson([tag |-> "REJECTED_AT", l |-> TLCGet("stats").diameter])) /\ FALSE
 =============================================================================
